@@ -272,21 +272,17 @@ func (r *queryRun) step(st h.Step) map[string]interface{} {
 	default:
 		h.Die("query: unknown action %q", st.A())
 	}
+	// Positive waits, independent of which select case the model guessed: first the records the model expects
+	// (or the loop being back at the gate: its iteration is over, possibly a silent one), then until the loop
+	// is observably quiescent: back at the gate, blocked in its select, blocked in Send, or finished.
 	if w > 0 {
-		poll(2*time.Second, func() bool { return r.qframes() >= w })
+		poll(2*time.Second, func() bool { r.drainGate(); return r.qframes() >= w || r.atGate })
 	}
-	// positive wait for the place the model expects the loop to be in (bounded: the model may be wrong)
-	switch st.Str("pc") {
-	case "gate":
-		if !r.done && !r.hasDone() {
-			r.awaitGate(2 * time.Second)
-		}
-	case "sel":
-		poll(2*time.Second, func() bool { return r.done || loopState() == "select" || r.qframes() > 0 })
-	case "send":
-		poll(2*time.Second, func() bool { return loopState() == "send" })
-	case "end":
-		poll(2*time.Second, func() bool { return r.done || r.hasDone() })
+	if st.A() != "query" && st.A() != "stall" {
+		poll(2*time.Second, func() bool {
+			r.drainGate()
+			return r.atGate || r.done || r.hasDone() || loopState() != ""
+		})
 	}
 	// the step must be over well before the query's real deadline, otherwise the schedule's order of
 	// "expire" relative to the other steps is not the one that was executed: the attempt is repeated
